@@ -179,6 +179,18 @@ func (env *Env) lookupType(name string) types.Type {
 	case "seq":
 		return seqType
 	}
+	if strings.HasPrefix(name, "*") {
+		if t := env.lookupType(name[1:]); t != nil {
+			return types.NewPointer(t)
+		}
+		return nil
+	}
+	if strings.HasPrefix(name, "[]") {
+		if t := env.lookupType(name[2:]); t != nil {
+			return types.NewSlice(t)
+		}
+		return nil
+	}
 	if i := strings.IndexByte(name, '.'); i > 0 {
 		if p, ok := env.e.p.pkgs[name[:i]]; ok {
 			if o := p.Pkg.Scope().Lookup(name[i+1:]); o != nil {
@@ -228,6 +240,15 @@ func (env *Env) typeExpr(x ast.Expr) types.Type {
 		}
 	case *ast.ParenExpr:
 		return env.typeExpr(t.X)
+	case *ast.MapType:
+		k, v := env.typeExpr(t.Key), env.typeExpr(t.Value)
+		if k != nil && v != nil {
+			return types.NewMap(k, v)
+		}
+	case *ast.StructType:
+		if t.Fields == nil || len(t.Fields.List) == 0 {
+			return types.NewStruct(nil, nil)
+		}
 	}
 	return nil
 }
@@ -707,6 +728,50 @@ func (env *Env) call(n *ast.CallExpr) TV {
 			return TV{T: fmt.Sprintf("(forall ((%s (_ BitVec 64))) %s)", bv, implies(rng, body)), Ty: boolT}
 		}
 		return TV{T: fmt.Sprintf("(exists ((%s (_ BitVec 64))) %s)", bv, and(rng, body)), Ty: boolT}
+	case "nolocks": // this invocation holds no mutex
+		env.e.declHeld()
+		return TV{T: eq(c.Get(env.st, "$held"), "((as const (Array MuId Int)) 0)"), Ty: boolT}
+	case "samelocks": // lock state equals the one at entry
+		env.e.declHeld()
+		return TV{T: eq(c.Get(env.st, "$held"), c.Get(env.old, "$held")), Ty: boolT}
+	case "bound": // bound(x): interface value x was loaded from the file field of a fidRef
+		v := env.eval(n.Args[0])
+		if _, ok := env.e.prov[v.T]; ok {
+			return TV{T: "true", Ty: boolT}
+		}
+		return TV{T: "false", Ty: boolT}
+	case "refof": // the fidRef whose file field x was loaded from
+		v := env.eval(n.Args[0])
+		if r, ok := env.e.prov[v.T]; ok {
+			return TV{T: r, Ty: env.lookupType("*p9.fidRef")}
+		}
+		return TV{T: "0", Ty: env.lookupType("*p9.fidRef")}
+	case "arr": // backing array identity of a slice (mathint)
+		v := env.eval(n.Args[0])
+		return TV{T: "(s.arr " + v.T + ")", Ty: ghostIntType}
+	case "off": // offset of a slice in its backing array
+		v := env.eval(n.Args[0])
+		return TV{T: "(s.off " + v.T + ")", Ty: types.Typ[types.Int]}
+	case "min", "max":
+		a, b := env.eval(n.Args[0]), env.eval(n.Args[1])
+		if a.Ty == nil {
+			a = env.coerce(a, b.Ty)
+		}
+		if b.Ty == nil {
+			b = env.coerce(b, a.Ty)
+		}
+		if a.Ty == nil {
+			a, b = env.defaultType(a), env.defaultType(b)
+		}
+		_, signed, _ := isInt(a.Ty)
+		op := "bvule"
+		if signed {
+			op = "bvsle"
+		}
+		if fname == "min" {
+			return TV{T: fmt.Sprintf("(ite (%s %s %s) %s %s)", op, a.T, b.T, a.T, b.T), Ty: a.Ty}
+		}
+		return TV{T: fmt.Sprintf("(ite (%s %s %s) %s %s)", op, a.T, b.T, b.T, a.T), Ty: a.Ty}
 	case "has": // has(m, k): key present
 		m := env.eval(n.Args[0])
 		u, ok := m.Ty.Underlying().(*types.Map)
